@@ -93,6 +93,25 @@ func exec(op string) string {
 			}
 			return showPackets(ps)
 		})
+	case "plimit":
+		// bodies around the 3-byte length limit: encode, then decode the stream again
+		return hx.Guard(func() string {
+			n := hx.KVInt(ws, "n")
+			body := make([]byte, n)
+			for i := range body {
+				body[i] = byte(i * 7)
+			}
+			b, err := codec.NewPomeloPacketEncoder().Encode(packet.Type(hx.KVInt(ws, "typ")), body)
+			if err != nil {
+				return "err"
+			}
+			rt := "bad"
+			ps, derr := codec.NewPomeloPacketDecoder().Decode(b)
+			if derr == nil && len(ps) == 1 && int(ps[0].Type) == hx.KVInt(ws, "typ") && string(ps[0].Data) == string(body) {
+				rt = "ok"
+			}
+			return "ok hdr=" + hx.Hex(b[:4]) + " rt=" + rt
+		})
 	case "prt":
 		return hx.Guard(func() string {
 			var all []byte
@@ -174,9 +193,20 @@ func (g *gen) payload() []byte {
 	if t.Thorough() {
 		max = 70000
 	}
-	switch t.R.Intn(5) {
+	switch t.R.Intn(6) {
 	case 0:
 		return nil
+	case 5: // payloads that LOOK compressed (zlib/gzip magic) but are plain data, or really are deflated data
+		t.Count("payload.zlibmagic")
+		switch t.R.Intn(3) {
+		case 0:
+			d, _ := compression.DeflateData(t.Bytes(t.R.Intn(40)))
+			return d
+		case 1:
+			magic := [][]byte{{0x78, 0x01}, {0x78, 0x5e}, {0x78, 0x9c}, {0x78, 0xda}, {0x1f, 0x8b}}[t.R.Intn(5)]
+			return append(append([]byte{}, magic...), t.Bytes(1+t.R.Intn(20))...)
+		}
+		return []byte{0x78, 0x9c}
 	case 1: // compressible
 		n := t.R.Intn(max)
 		b := make([]byte, n)
@@ -312,6 +342,10 @@ func TestRun(t *testing.T) {
 		}
 	}
 	h.Stats["exhaustive.dec.len<=2"] = 65793
+	// the packet length limit (D13): 2^24-1 is the largest body the header can carry
+	for _, n := range []int{1<<24 - 1, 1 << 24, 1<<24 + 1} {
+		run(fmt.Sprintf("plimit typ=4 n=%d", n))
+	}
 	n := hx.EnvInt("VERIF_N", 4000)
 	for i := 0; i < n; i++ {
 		switch h.R.Intn(9) {
@@ -359,4 +393,36 @@ func TestRun(t *testing.T) {
 			run(decOp(b))
 		}
 	}
+}
+
+
+// TestExhaustive3 (thorough tier): every byte string of length 3 through
+// message.Decode in-process; any panic is recorded, and every 97th input
+// (plus all inputs whose flag byte selects a routable type) goes into the trace
+// for comparison with the model.
+func TestExhaustive3(t *testing.T) {
+	h := hx.Open()
+	defer h.Close()
+	total, panics := 0, 0
+	for a := 0; a < 256; a++ {
+		for b := 0; b < 256; b++ {
+			for c := 0; c < 256; c++ {
+				data := []byte{byte(a), byte(b), byte(c)}
+				total++
+				obs := doDecode(data)
+				if obs == "panic" {
+					panics++
+					if panics <= 20 {
+						h.Emit(decOp(data), obs)
+					}
+					continue
+				}
+				if total%97 == 0 || (a < 8 && b < 8) {
+					h.Emit(decOp(data), obs)
+				}
+			}
+		}
+	}
+	h.Stats["exhaustive.dec.len=3"] = total
+	h.Stats["exhaustive.dec.len=3.panics"] = panics
 }
